@@ -73,6 +73,24 @@ def param_assignments(p, rng, n, exhaustive_limit=0):
         tries += 1
         if a not in res:
             res.append(a)
+    # dictionary: the constants encode() compares its arguments with, all together (value-specific branches of the encoder);
+    # appended beyond n so that the assignments above do not depend on it
+    consts = p.get('arg_constants') or {}
+    names = [n_ for n_, lo, hi in eps if any(lo <= c <= hi for c in consts.get(n_, []) if isinstance(c, int))]
+    if names:
+        combos = [dict(lo_all)]
+        for n_ in names:
+            lo, hi = [(l, h) for m, l, h in eps if m == n_][0]
+            vals = [c for c in consts[n_] if lo <= c <= hi][:4]
+            combos = [dict(c, **{n_: v}) for c in combos for v in vals][:16]
+        for a in combos:
+            if a not in res:
+                res.append(a)
+    for d in (consts.get('__together__') or [])[:12]:
+        if all(any(m == k and lo <= v <= hi for m, lo, hi in eps) for k, v in d.items()):
+            a = dict(lo_all, **d)
+            if a not in res:
+                res.append(a)
     return res
 
 
